@@ -559,7 +559,7 @@ impl<C: CrcCalculator> Encapsulator<C> {
         let encap_status: EncapStatus;
         // End packet
         // if the rest of packet fits in the buffer
-        if buffer_len >= gse_end_len + FIXED_HEADER_LEN {
+        if buffer_len >= gse_end_len + FIXED_HEADER_LEN && gse_end_len <= GSE_LEN_MAX {
             header =
                 generate_gse_header(&PktType::EndFragPkt, &LabelType::ReUse, gse_end_len as u16);
             pdu_len_encapsulated = pdu_len_remaining;
@@ -574,7 +574,9 @@ impl<C: CrcCalculator> Encapsulator<C> {
         else if buffer_len > FIXED_HEADER_LEN + FRAG_ID_LEN {
             let gse_len: usize;
 
-            let pdu_len_available = buffer_len - (FIXED_HEADER_LEN + FRAG_ID_LEN);
+            // a GSE packet cannot be longer than GSE_LEN_MAX + FIXED_HEADER_LEN, whatever the buffer
+            let pdu_len_available =
+                (buffer_len - (FIXED_HEADER_LEN + FRAG_ID_LEN)).min(GSE_LEN_MAX - FRAG_ID_LEN);
 
             if pdu_len_available > pdu_len_remaining {
                 gse_len = FRAG_ID_LEN + pdu_len_remaining;
@@ -963,7 +965,7 @@ pub fn encap_frag_preview(
     let pkt_len: u16;
     // End packet
     // if the rest of packet fits in the buffer
-    if buffer_len >= gse_end_len + FIXED_HEADER_LEN {
+    if buffer_len >= gse_end_len + FIXED_HEADER_LEN && gse_end_len <= GSE_LEN_MAX {
         pdu_len_encapsulated = pdu_len_remaining;
 
         let mut buffer_offset = FIXED_HEADER_LEN + FRAG_ID_LEN + pdu_len_encapsulated;
@@ -976,7 +978,9 @@ pub fn encap_frag_preview(
     else if buffer_len > FIXED_HEADER_LEN + FRAG_ID_LEN {
         let gse_len: usize;
 
-        let pdu_len_available = buffer_len - (FIXED_HEADER_LEN + FRAG_ID_LEN);
+        // a GSE packet cannot be longer than GSE_LEN_MAX + FIXED_HEADER_LEN, whatever the buffer
+        let pdu_len_available =
+            (buffer_len - (FIXED_HEADER_LEN + FRAG_ID_LEN)).min(GSE_LEN_MAX - FRAG_ID_LEN);
 
         if pdu_len_available > pdu_len_remaining {
             gse_len = FRAG_ID_LEN + pdu_len_remaining;
